@@ -200,11 +200,14 @@ PROPS["C18"] = {
         "lenient mode; `user_namespace_privilege!` yields an object whose check_* answers are fresh Booleans; calls through the shared application data are data accesses; a data access built from a "
         "namespace source needs an earlier check on a term built from the same source that the path took as true, or carries the privilege object (listing delegated to the index filters). Weaker than "
         "equality of the checked and the used term. Handlers addressed by id only (MCP get / update / remove / publish by id) name no namespace and are outside. Nine MCP handlers are known findings (S18-b)",
+        "s18_4 also evaluates the handler functions of other modules that console routes point to (eight OpenAPI handlers of the v1 console API; struct definitions are scoped per handler file) and applies the rule "
+        "'composed-key': config_route.set_config / del_config with a key built from request strings needs ConfigKey::is_valid taken as Ok; s18_5_composed_key: build_key, From<&str> for ConfigKey, is_valid from source, dataId / group / tenant "
+        "as sequences of separator-free pieces (0..=2 separators inside each, symbolic), param_utils::is_valid evaluated on the separator and on plain names; four mounted OpenAPI handlers are known findings (S18-c)",
         "s18_3: UserManager::{add_user, update_user}, UserDo::build_namespace_privilege, From<UserDo> for UserDto, PrivilegeGroup::{all, new, get_flags} from source; the raft table route is a one-table store, "
         "UserDo::to_bytes / from_bytes a copy (prost codec outside); lists absent / empty / [a] / [a, b] (blacklist: absent / empty / [b]), flags absent or arbitrary; quick tier compares through the closed form of "
         "check_permission on the namespaces '', a, b, zz, thorough through the source of check_permission with an arbitrary namespace string; counterexamples and two sampled histories run on a real single-node application",
     ],
-    "outside": "console handlers that address an entry by id only; the multipart import handlers (their namespace comes from a form / header); LDAP / OAuth2 users' groups; the session cache between two logins",
+    "outside": "console handlers that address an entry by id only; the multipart import handlers (their namespace comes from a form / header; the zip import builds keys without the validity gate); mounted handlers that parse their body themselves (no typed namespace parameter); LDAP / OAuth2 users' groups; the session cache between two logins",
     "explanation": "bounded symbolic evaluation of the privilege algebra and the two index listing functions from the real source into SMT",
 }
 
@@ -340,7 +343,7 @@ PROPS["C09"] = {
         "operations are applied through ConfigActor::set_config / del_config (what the ConfigRaftCmd handler calls after parsing the key); two keys in two tenants",
         "listings: every API entry point queries with Some(tenant); the tenant == None branch of TenantIndex::query_config_page is not part of the claim",
     ],
-    "outside": "HTTP / gRPC parameter parsing other than the listing parameters (s09_6: get_config's search dispatch, build_search_param / build_like_search_param, the console's to_param); text size limits; "
+    "outside": "HTTP / gRPC parameter parsing other than the listing parameters and the keys the four gRPC config handlers build (s09_7: dataId / group kept, 'public' mapped to the empty tenant, arbitrary strings) (s09_6: get_config's search dispatch, build_search_param / build_like_search_param, the console's to_param); text size limits; "
                "the md5 function itself (the native replay uses the real one)",
     "explanation": "bounded symbolic execution of the config store's real source with arbitrary string contents",
 }
